@@ -125,6 +125,21 @@ def resizeSpec (room : Bool) (bombs : List Id) (xs : List Id) (newLen : Nat) (va
         | .panic d => .panic d,
       rest := o }
 
+/-- `resize_with(new_len, f)`: grow by values produced by `f`, or truncate -/
+def resizeWithSpec (room : Bool) (bombs : List Id) (xs : List Id) (newLen : Nat) (o : List Outcome) : SpecOut Unit :=
+  if newLen > xs.length then extendCloneSpecR room xs (newLen - xs.length) o
+  else { truncateSpec bombs xs newLen with rest := o }
+
+/-- `pop_if(pred)` -/
+def popIfSpec (xs : List Id) (o : List Outcome) : SpecOut (Option Id) :=
+  match xs.getLast?, o with
+  | none, o => { final := xs, exit := .ret none, rest := o }
+  | some _, [] => { final := xs, exit := .panic false, rest := [] }
+  | some _, .panic :: o => { final := xs, exit := .panic false, rest := o }
+  | some x, .ret b :: o =>
+    if b ≠ 0 then { final := xs.dropLast, escaped := [x], exit := .ret (some x), rest := o }
+    else { final := xs, exit := .ret none, rest := o }
+
 /-- ids the operation brought into existence (inserted by the caller or produced by `Clone`) -/
 def clonedIds : Nat → List Outcome → List Id
   | 0, _ => []
